@@ -209,7 +209,8 @@ def impl_obs(c, tmp):
                               efficiency=0.9, slew_rate=3.0, field_of_view=ConicFoV(0.2), background_observations=False,
                               detectable_vismag=25.0, minimum_range=None, maximum_range=None)
         store[sid] = sa
-    stub = SimpleNamespace(_importer_db=idb, logger=NULL, _sensor_store=store)
+    # one engine of several: its own sensors and targets are only part of what the database holds for the epoch - every stored observation is loaded all the same
+    stub = SimpleNamespace(_importer_db=idb, logger=NULL, _sensor_store=store, sensor_list=[60001], target_list=[10001], unique_id=2)
     stub._attachObsMetadata = lambda ob: CentralizedTaskingEngine._attachObsMetadata(stub, ob)
     old_ray = ce.ray
     ce.ray = SimpleNamespace(get=lambda ref: ref)
